@@ -132,13 +132,10 @@ func NewWorld(p *Plan) *World {
 		w.logW = os.Stderr
 	}
 	simfs.Reset()
-	simfs.Latency = func(kind, path string) time.Duration {
-		// the temp-file suffix is random per snapshot: key the duration by the file kind
-		base := "nflog"
-		if strings.Contains(path, "/silences") {
-			base = "silences"
-		}
-		return 20*time.Microsecond + time.Duration(Hash64(p.Seed, kind, base)%9973)
+	simfs.Latency = func(kind, path, caller string) time.Duration {
+		// keyed by the calling package (silence / nflog), not by the path: the
+		// temp-file suffix is random, and the duration must tell the two writers apart
+		return 20*time.Microsecond + time.Duration(Hash64(p.Seed, kind, caller)%9973)
 	}
 	simrand.Reset(p.Seed ^ 0x5151)
 	uuid.SetRand(&detReader{s: p.Seed ^ 0xabcdef})
